@@ -237,49 +237,97 @@ class GMDouble:
         return np.array([integer(GMDouble.ctx, f"child{c}_{i}", lo=0, hi=1).resolve(0, 1) for i in range(n)], dtype=int)
 
 
-def make_hier(n, max_iterations, normalize, contiguous=False):
+class GMScripted(GMDouble):
+    """concrete twin of GMDouble for replays: BIC values and child labels are read from a solver model."""
+    model = {}
+
+    def bic(self, data):
+        GMDouble.counter += 1
+        return float(GMScripted.model.get(f"bic{GMDouble.counter}", 0.0))
+
+    def predict(self, data):
+        GMDouble.counter += 1
+        c, n = GMDouble.counter, len(data)
+        if GMDouble.contiguous:
+            k = int(GMScripted.model.get(f"cut{c}", 0))
+            return np.array([0] * k + [1] * (n - k), dtype=int)
+        return np.array([int(GMScripted.model.get(f"child{c}_{i}", 0)) for i in range(n)], dtype=int)
+
+
+def make_hier(n, max_iterations, normalize, contiguous=False, refit=False):
+    """refit=True: the same model object is fitted a second time on data with the same bounding box (the sampler refits one
+    clusterer object every cluster_every iterations); every invariant must hold for the second fit as well."""
     X = (np.arange(n, dtype=float).reshape(n, 1) * 0.13 + 0.1) % 1.0
     W = np.linspace(1.0, 2.0, n)
+    q = np.array([[-0.3], [0.05], [0.5], [0.97], [1.8]])
+
+    def verdicts(gm_cls):
+        """runs the real hierarchical model on top of the given inner-mixture class; yields (label, ok, detail)."""
+        out = []
+        h = HierarchicalGaussianMixture(n_init=1, max_iterations=max_iterations, min_points=None, threshold_modifier=1.0, normalize=normalize)
+        rounds = [("", X, W)] + ([("refit:", X[::-1].copy(), W[::-1].copy())] if refit else [])
+        for tag, Xr, Wr in rounds:
+            with patched(cluster_mod, GaussianMixture=gm_cls):
+                h.fit(Xr.copy(), Wr.copy())
+            K = h.n_clusters_
+            lab = h.labels_
+            out.append((tag + "every-training-point-has-exactly-one-label-in-[0,K)", bool(len(lab) == n and np.all(lab >= 0) and np.all(lab < K)), None))
+            out.append((tag + "cluster-cap-respected", bool(K <= max_iterations + 1), K))
+            min_points = 2 * X.shape[1]
+            sizes = [int(np.sum(lab == k)) for k in range(K)]
+            out.append((tag + "no-accepted-split-leaves-a-child-below-min-points", bool(K == 1 or all(s_ >= min_points for s_ in sizes)), sizes))
+            out.append((tag + "every-cluster-non-empty", bool(all(s_ > 0 for s_ in sizes)), sizes))
+            try:
+                p = h.predict(q)
+                out.append((tag + "predict-labels-in-[0,K)", bool(len(p) == len(q) and np.all(p >= 0) and np.all(p < K)), {"labels": np.asarray(p).tolist(), "K": int(K)}))
+                pp = h.predict_proba(q)
+                out.append((tag + "predict_proba-rows-sum-to-one", bool(pp.shape == (len(q), K) and np.allclose(pp.sum(axis=1), 1.0)), {"shape": list(pp.shape), "K": int(K)}))
+                pt = h.predict(Xr)
+                out.append((tag + "predict-on-training-points-in-[0,K)", bool(len(pt) == n and np.all(pt >= 0) and np.all(pt < K)), None))
+            except Exception as e:
+                out.append((tag + "predict-labels-in-[0,K)", False, f"raised {type(e).__name__}: {e}"))
+            out.append((tag + "cluster-weights-sum-to-one", bool(math.isclose(float(np.sum(h.cluster_weights_)), 1.0, rel_tol=1e-9)), None))
+            out.append((tag + "one-center-covariance-weight-per-cluster",
+                        bool(len(h.cluster_centers_) == K and len(h.cluster_covariances_) == K and len(h.cluster_weights_) == K), None))
+        return out
 
     def harness(ctx: PathCtx):
         GMDouble.ctx = ctx
         GMDouble.counter = 0
         GMDouble.contiguous = contiguous
-        h = HierarchicalGaussianMixture(n_init=1, max_iterations=max_iterations, min_points=None, threshold_modifier=1.0, normalize=normalize)
-        with patched(cluster_mod, GaussianMixture=GMDouble):
-            h.fit(X.copy(), W.copy())
-        K = h.n_clusters_
-        lab = h.labels_
-        ctx.check("every-training-point-has-exactly-one-label-in-[0,K)", z3.BoolVal(bool(len(lab) == n and np.all(lab >= 0) and np.all(lab < K))))
-        ctx.check("cluster-cap-respected", z3.BoolVal(K <= max_iterations + 1))
-        min_points = 2 * X.shape[1]
-        sizes = [int(np.sum(lab == k)) for k in range(K)]
-        ctx.check("no-accepted-split-leaves-a-child-below-min-points", z3.BoolVal(K == 1 or all(s >= min_points for s in sizes)), detail=sizes)
-        ctx.check("every-cluster-non-empty", z3.BoolVal(all(s > 0 for s in sizes)))
-        q = np.array([[-0.3], [0.05], [0.5], [0.97], [1.8]])
-        p = h.predict(q)
-        ctx.check("predict-labels-in-[0,K)", z3.BoolVal(bool(len(p) == len(q) and np.all(p >= 0) and np.all(p < K))))
-        pp = h.predict_proba(q)
-        ctx.check("predict_proba-rows-sum-to-one", z3.BoolVal(bool(pp.shape == (len(q), K) and np.allclose(pp.sum(axis=1), 1.0))))
-        ctx.check("cluster-weights-sum-to-one", z3.BoolVal(bool(math.isclose(float(np.sum(h.cluster_weights_)), 1.0, rel_tol=1e-9))))
-        return sizes
+        res = verdicts(GMDouble)
+        for label, ok, detail in res:
+            ctx.check(label, z3.BoolVal(ok), detail=detail)
+        return None
 
     def replay(m, label, v):
-        return {"reproduced": True, "signature": f"hierarchical:{label}", "payload": {k: str(x) for k, x in m.items()},
-                "what": f"HierarchicalGaussianMixture.fit (inner mixture scripted: BIC values / child labels from the model) violates {label}: {v.get('detail')}"}
+        GMDouble.counter = 0
+        GMDouble.contiguous = contiguous
+        GMScripted.model = {k: (float(x) if not isinstance(x, (bool, str)) else x) for k, x in m.items()}
+        try:
+            res = verdicts(GMScripted)
+        except Exception as e:
+            res = [(label, False, f"raised {type(e).__name__}: {e}")]
+        bad = [(l_, d_) for l_, ok, d_ in res if not ok]
+        hit = [b for b in bad if b[0] == label] or bad
+        return {"reproduced": bool(bad), "signature": f"hierarchical:{(hit[0][0] if hit else label)}", "payload": {"violated": [b[0] for b in bad][:4], "detail": str(hit[0][1]) if hit else None},
+                "what": f"HierarchicalGaussianMixture (real fit/predict; inner mixture scripted with the model's BIC values and child labels"
+                        f"{', fitted twice on data with the same bounding box' if refit else ''}) violates {(hit[0][0] if hit else label)}: {hit[0][1] if hit else ''}"}
 
-    return Obligation(f"hier-n{n}-maxit{max_iterations}-{'norm' if normalize else 'raw'}{'-contiguous' if contiguous else ''}", harness, replay=replay,
+    return Obligation(f"hier-n{n}-maxit{max_iterations}-{'norm' if normalize else 'raw'}{'-contiguous' if contiguous else ''}{'-refit' if refit else ''}", harness, replay=replay,
                       encodes=[HierarchicalGaussianMixture.fit, HierarchicalGaussianMixture.predict, HierarchicalGaussianMixture.predict_proba],
-                      bounds=f"{n} concrete 1-d points, max_iterations={max_iterations}, arbitrary (symbolic) BIC values and child labels of the inner mixture",
+                      bounds=f"{n} concrete 1-d points, max_iterations={max_iterations}, arbitrary (symbolic) BIC values and child labels of the inner mixture"
+                             + (", two consecutive fits of one object" if refit else ""),
                       stubs=["GaussianMixture -> contract double (symbolic bic(), symbolic predict())"], theory="QF_LRA/LIA", max_paths=30000)
 
 
 def obligations(tier):
     # make_mstep_fp (bit-precise variance >= 0) is not scheduled: the QF_FP query with multipliers/dividers did not finish in 290 s
     obs = [make_mstep(2, 1, 2, "full"), make_mstep(2, 2, 2, "diag"), make_mstep(2, 2, 1, "full"), make_mstep(3, 1, 1, "full"), make_replicas(1, "full"),
-           make_hier(6, 1, True), make_hier(5, 2, False), make_hier(8, 2, False, contiguous=True)]
+           make_hier(6, 1, True), make_hier(5, 2, False), make_hier(8, 2, False, contiguous=True),
+           make_hier(4, 1, True, refit=True)]
     if tier == "thorough":
         # (n=3 with K=2 or d=2: the PSD query is undecided by nlsat within 30 s - not scheduled)
         obs += [make_mstep(2, 2, 2, "full"), make_mstep(3, 1, 1, "diag"), make_replicas(2, "full"), make_replicas(1, "diag"),
-                make_hier(6, 2, True), make_hier(7, 2, False)]
+                make_hier(6, 2, True), make_hier(7, 2, False), make_hier(5, 1, False, refit=True), make_hier(6, 1, True, contiguous=True, refit=True)]
     return obs
